@@ -205,6 +205,16 @@ class RouterAnalysis:
                 ok = (len(in_f) == 1 and (in_f[0].targs or ['?'])[0] == pack) if in_f else len(same_pack) >= 1
                 self.add('RT.1', ok, f'{f.name[:80]} -> {inner.split("::")[-2]}::notify{pack}', f.shortloc(),
                          '' if ok else f'forwards to {[c.callee for c in calls]}', key=f'RT.1|forward|{outer}')
+        # every public SubjectRouter operation enters the tree at the root node: a node reached any other way (a cache of node
+        # pointers, an index kept beside the tree) is resolved by something the traversal rules do not describe
+        for f in [g for g in self.facts.fns if g.d.get('class') == 'tulz::SubjectRouter' and not g.d.get('lambda') and g.d.get('access') == 'public' and g.gname.split('::')[-1] in ('notify', 'subscribe', 'shrink', 'exists', 'depth')]:
+            base_ = f.gname.split('::')[-1]
+            calls_ = [n for n in f.nodes() if n.k == 'call' and strip_targs(n.calleeq or '') == f'{NODE}::{base_}']
+            off_root = [n for n in calls_ if not (n.n('object') is not None and n.n('object').is_field('m_rootNode'))]
+            if off_root:
+                self.add('RT.1', None, f'{f.name[:80]}: the operation enters the tree at the root node', off_root[0].shortloc(),
+                         f'Node::{base_} is called on `{(off_root[0].n("object").text() if off_root[0].n("object") is not None else "?")[:40]}`, not on m_rootNode: how that node was found (a cache / index beside the tree) is not followed')
+            elif calls_: self.add('RT.1', True, f'{f.name[:80]}: Node::{base_} is entered at m_rootNode', calls_[0].shortloc())
         # subscribe: factory creates Subject<A...>, casts back to Subject<A...>
         for f in node_fns(self.facts, 'subscribe'):
             pack = f.d.get('targs', ['<?>'])[0]
@@ -453,6 +463,34 @@ class RouterAnalysis:
                     is_name = any(y.k == 'call' and (y.callee_base() == 'asString' or (strip_targs(y.calleeq or '') == 'std::get' and 'basic_string' in ' '.join(y.targs or []))) for y in src.walk())
                     if not is_name: verdict = None; why = 'the origin of the child key was not recognised as the next level\'s string'
         self.add('RT.5', verdict, 'lookupNode inserts the child under key k with Node(k), k = next level name', ins[0].shortloc() if ins else lk.shortloc(), '' if verdict else why, key='RT.5|key-name')
+        # the name a node keeps must live as long as the node: an owning string, or a view of the key its parent's map stores
+        nc = F.cls(NODE) or {}
+        views = [x for x in nc.get('fields', []) if re.match(r'(const )?(std::(basic_)?string_view\b|std::basic_string_view<|const char \*|const std::(__cxx11::)?basic_string<[^>]*> ?[&*])', x['ctype'])]
+        for vf in views:
+            inst = f'Node::{vf["name"]} ({vf["ctype"][:40]}) designates storage that lives as long as the node'
+            if len(ins) != 1: self.add('RT.5', None, inst, vf['loc'], 'the insertion of the child was not recognised'); continue
+            call = ins[0]
+            srcs = [a for a in call.ns('args') if a is not None]
+            if call.ck == 'op' and 'mclass' in call.d: srcs = srcs[1:]
+            given = srcs[1:] if len(srcs) >= 2 else [x for c_ in call.walk() if c_.k == 'construct' and c_.d.get('class') == NODE for x in c_.ns('args') if x is not None]
+            if not given: self.add('RT.5', None, inst, call.shortloc(), 'what the new node is given as its name was not recognised'); continue
+            def stored_key(e):
+                return any(m_.k == 'member' and m_.name == 'first' for m_ in e.walk())
+            def callers_key(e, depth=0):
+                # derived from the level view / routing key the caller passed in (the strings of a RoutingKey belong to the caller)
+                for m_ in e.walk():
+                    if m_.k == 'call' and (m_.callee_base() in ('asString',) or (m_.mclass or '') == VIEW): return True
+                    if m_.k == 'ref' and m_.dk == 'local' and depth < 3:
+                        import guards as _g2
+                        i_ = _g2.single_assignment_init(lk, m_.decl)
+                        if i_ is not None and callers_key(i_, depth + 1): return True
+                return False
+            g0 = given[0]
+            if stored_key(g0): self.add('RT.5', True, inst + ': a view of the key stored in the parent\'s map', call.shortloc(), key='RT.5|name-lifetime')
+            elif callers_key(g0):
+                self.add('RT.5', False, inst, call.shortloc(), f'the node is constructed from `{g0.text()[:40]}`, a string of the routing key the caller passed to subscribe(); `{vf["name"]}` is a non-owning `{vf["ctype"][:30]}` of it, '
+                         f'the map key is a separate copy: once the caller\'s key is gone the node\'s name dangles, matches() reads freed memory and later deliveries miss or hit the wrong nodes', key='RT.5|name-lifetime')
+            else: self.add('RT.5', None, inst, call.shortloc(), f'where `{g0.text()[:40]}` lives was not followed')
         rec = [n for n in lk.nodes() if n.k == 'call' and strip_targs(n.calleeq or '') == f'{NODE}::lookupNode']
         if not rec: self.add('RT.5', None, 'lookupNode descends one level per call', lk.shortloc(), 'lookupNode is not recursive (loop over the levels): not followed')
         else: self.add('RT.5', len(rec) == 1, 'lookupNode descends one level per call', lk.shortloc(), '' if len(rec) == 1 else f'{len(rec)} recursive calls', key='RT.5|descend')
